@@ -6,6 +6,7 @@ package clock
 
 //@ type Mock
 //@   field now guarded_by RWMutex
+//@   field changes nonnil
 //@   field timers guarded_by RWMutex
 
 //@ func afters.Less
@@ -64,7 +65,6 @@ package clock
 //@   prop C13 C17
 //@   flag entrylocks
 //@   requires held(mu(m.RWMutex)) == 2
-//@   requires m.changes != nil
 //@   ensures held(mu(m.RWMutex)) == 2
 //@   ensures [clock-set] m.now == t
 //@   ensures [kept-timers-not-due] forall a int :: off(m.timers) <= a && a < off(m.timers) + len(m.timers) ==> at(m.timers, a).Time > t
